@@ -120,9 +120,8 @@ Print Assumptions C03_zero_credit_refuted.
    procedure that was accepted and is not concluded by its completion event is open-ended by
    specification (an LE connection creation the controller still holds as pending, hence
    cancellable; a classic connection creation waiting for the peer's host).
-   Hypotheses (boolean, along the run): no peer leaves the link without terminating its
-   connections (D03i) and no second Create Connection for a peer while one is pending or
-   connected (D03k). *)
+   Hypothesis (boolean, along the run): no peer leaves the link without terminating its
+   connections (known finding D03i). *)
 Theorem C03_pending_has_cause : forall present xs,
   wf_ext (p_init present) xs = true ->
   let s := fst (p_run (p_init present) (settled xs)) in
@@ -130,29 +129,24 @@ Theorem C03_pending_has_cause : forall present xs,
 Proof. exact pending_has_cause. Qed.
 Print Assumptions C03_pending_has_cause.
 
-(* both hypotheses are needed (known findings D03i, D03k) *)
+(* the hypothesis is needed (known finding D03i) *)
 Theorem C03_peer_gone_refuted :
   let s := fst (p_run (p_init [2]) (settled [Cmd (LeCreate false 2); Adv 2; Remove 2; Cmd (ReadFeat 1)])) in
   p_quiet s = true /\ p_open s = [PFeat 1] /\ forallb (open_ended s) (p_open s) = false.
 Proof. exact peer_gone_refuted. Qed.
 Print Assumptions C03_peer_gone_refuted.
 
-Theorem C03_double_classic_create_refuted :
-  let s := fst (p_run (p_init [3]) (settled [Cmd (ClassicCreate 3); Cmd (ClassicCreate 3); PeerAccept 3])) in
-  p_quiet s = true /\ p_open s = [PClassic 3] /\ forallb (open_ended s) (p_open s) = false.
-Proof. exact double_classic_create_refuted. Qed.
-Print Assumptions C03_double_classic_create_refuted.
-
 (* non-vacuity: a run that satisfies the hypotheses, opens and concludes every kind of procedure *)
 Example C03_procedures_nonvacuous :
   let xs := [Cmd (LeCreate false 9); Cmd LeCancel; Cmd (LeCreate true 2); Adv 2; Cmd (ReadFeat 1);
              Cmd (Encrypt 1); Cmd (ClassicCreate 3); PeerAccept 3; Cmd (RemoteName 3); Cmd (RemoteName 9);
-             Cmd (ClassicCreate 9); PeerDisconnect 2; Cmd (Disconnect 2); Cmd (Disconnect 291)] in
+             Cmd (ClassicCreate 9); Cmd (ClassicCreate 3); PeerDisconnect 2; Cmd (Disconnect 2);
+             Cmd (Disconnect 291)] in
   wf_ext (p_init [2; 3]) xs = true /\
   run_obs [2; 3] (settled xs) =
     ([[0; 8205; 0]; [1; 8206; 0]; [2; 2; 0; 9]; [0; 8259; 0]; [2; 0; 1; 2]; [0; 8214; 0]; [4; 1];
       [0; 8217; 0]; [5; 1]; [0; 1029; 0]; [6; 0; 2; 3]; [0; 1049; 0]; [7; 0; 3]; [0; 1049; 0]; [7; 4; 9];
-      [0; 1029; 0]; [6; 4; 0; 9]; [3; 1]; [0; 1030; 0]; [3; 2]; [0; 1030; 2]], [], true, true).
+      [0; 1029; 0]; [6; 4; 0; 9]; [0; 1029; 11]; [3; 1]; [0; 1030; 0]; [3; 2]; [0; 1030; 2]], [], true, true).
 Proof. vm_compute. auto. Qed.
 
 (* non-vacuity: a schedule with three callers that satisfies the contract and is accepted *)
